@@ -1,15 +1,17 @@
 pub mod keys;
+pub mod worlds;
 
 use crate::explore::Report;
 use crate::Args;
 
 pub fn names() -> Vec<&'static str> {
-    vec!["keys"]
+    vec!["keys", "reuse"]
 }
 
 pub fn dispatch(args: &Args) -> Option<Report> {
     match args.driver.as_str() {
         "keys" => Some(keys::run(&args.tier, args.shard, args.seed)),
+        d if worlds::cfg_for(d, &args.tier).is_some() => worlds::run(args),
         other => {
             eprintln!("unknown driver {other}");
             std::process::exit(2);
